@@ -57,7 +57,13 @@ SENSITIVITY = {
     "r6b": ("seeded/r6b/patch.diff", "C17", ["result-mismatch", "process-history-dependence"], "A: long axes, interpolators alive together after a drop"),
     "r6c": ("seeded/r6c/patch.diff", "C18", ["callback-invariant"], "A: signed zero among the query values"),
     "r6d": ("seeded/r6d/patch.diff", "C18", ["wrong-target"], "A: query/buffer layouts"),
+    "r7a": ("seeded/r7a/patch.diff", "C17", ["result-mismatch", "entry-point-mismatch"], "A: f32 slots, repeated segment"),
+    "r7b": ("seeded/r7b/patch.diff", "C17", ["result-mismatch"], "A: stub writes part of its target before failing"),
+    "r7c": ("seeded/r7c/patch.diff", "C18", ["callback-invariant"], "A + B: target shape, high combined rank"),
 }
+# seeded/r7d is kept but not listed: its author reads C18 as forbidding one-point axes for strategies
+# with declared minimum <= 1; the statement's parenthesis does not (see seeded/r7d/meta.json, DESIGN 14.3)
+_NOT_FLAGGED = {"r7d": "seeded/r7d/patch.diff"}
 
 BENIGN = {
     "B1": ("mutants/B1.diff", "a correct mutex-protected lookup cache"),
